@@ -53,6 +53,9 @@ Solo(e) == IsEvent(e) /\ Quiet /\ UNCHANGED pend /\ obs' = ObsOf(R)
 TUpdate == Solo("Update") /\ Update(R.h, R.p, R.a, R.c)
 TGet    == Solo("Get") /\ reply' = [op |-> "get", h |-> R.h, n |-> R.n, peers |-> RepOf(R)] /\ UNCHANGED svars
 TTick   == Solo("Tick") /\ Tick(R.d)
+\* the clock moves while calls are pending (an announcer that is slow after reading the clock): a pending call still takes
+\* effect at one instant between its call and its return, with the clock of that instant
+TTickBusy == IsEvent("TickBusy") /\ Tick(R.d) /\ UNCHANGED pend /\ obs' = NoObs
 TCleanE == Solo("CleanEntries") /\ CleanEntries
 TCleanG == Solo("CleanGroups") /\ CleanGroups
 \* Snap follows a concurrent phase: it selects the linearizations that lead to the projected store
@@ -102,7 +105,7 @@ Ret(e, op) == /\ IsEvent(e) /\ R.g \in DOMAIN pend
 TRet == Ret("ret:Update", "Update") \/ Ret("ret:Get", "Get")
         \/ Ret("ret:CleanGroups", "CleanGroups") \/ Ret("ret:CleanEntries", "CleanEntries")
 
-TraceNext == \/ TReset \/ TUpdate \/ TGet \/ TTick \/ TCleanE \/ TCleanG \/ TSnap
+TraceNext == \/ TReset \/ TUpdate \/ TGet \/ TTick \/ TTickBusy \/ TCleanE \/ TCleanG \/ TSnap
              \/ TCallUpdate \/ TCallGet \/ TCallCleanG \/ TCallCleanE \/ TRet
              \/ \E g \in DOMAIN pend : Lin(g) \/ \E h \in Hashes : CleanStep(g, h)
 TraceSpec == TraceInit /\ [][TraceNext]_tvars
